@@ -1770,20 +1770,31 @@ def _pull_ctx_ob(ctx, RULE):
         lp_ = fcfg.loop_of(floops[0])
         cur = None
         seen_k = set()
+        result_vars, miss_stores = set(), set()
         for kind, path, edge in fcfg.iteration_paths(lp_):
             pr = _wk(ctx, pf, fcfg, path)
             ck = [(c_.replace("~", ""), t_) for c_, t_, _n in pr.conds]
             hit = [c_ for c_, t_ in ck if re.fullmatch(rf"In\({kpar},\((\w+)\)\.keys\(\)\)|In\({kpar},(\w+)\)", c_) and t_]
             miss = [c_ for c_, t_ in ck if re.fullmatch(rf"In\({kpar},\((\w+)\)\.keys\(\)\)|In\({kpar},(\w+)\)", c_) and not t_]
             rets = [s_ for s_ in pr.steps if s_.kind == "return"]
+            stores_ = [(s_.ast.targets[0].id, _evn(ctx, pf, s_.env).ev(s_.ast.value).key().replace("~", "")) for s_ in pr.steps
+                       if s_.kind == "stmt" and isinstance(s_.ast, ast.Assign) and len(s_.ast.targets) == 1 and isinstance(s_.ast.targets[0], ast.Name)]
             if hit:
                 cur = re.search(r"\((\w+)\)\.keys|,(\w+)\)$", hit[0])
                 cur = cur.group(1) or cur.group(2)
                 rv = _evn(ctx, pf, rets[0].env).ev(rets[0].ast.value).key().replace("~", "") if rets and rets[0].ast.value is not None else None
+                if rv is None and not rets and kind == "exit":
+                    # single-exit form: the value is put into the result variable and the search is left
+                    got_ = [(n_, v_) for n_, v_ in stores_ if v_ == f"sub({cur},{kpar})"]
+                    if len(got_) == 1:
+                        rv = got_[0][1]
+                        result_vars.add(got_[0][0])
                 if rv != f"sub({cur},{kpar})":
                     ok, det = False, f"a present key yields `{rv}`"
                 seen_k.add("found")
-            elif kind == "back" and miss:
+            if not hit:
+                miss_stores |= {n_ for n_, v_ in stores_}
+            if not hit and kind == "back" and miss:
                 cur = re.search(r"\((\w+)\)\.keys|,(\w+)\)$", miss[0])
                 cur = cur.group(1) or cur.group(2)
                 nv = pr.env.get(cur)
@@ -1796,8 +1807,16 @@ def _pull_ctx_ob(ctx, RULE):
             det = f"lookup loop: cases {sorted(seen_k)}, levels `{norm(it_) if it_ is not None else None}`"
         # starts at the context itself; falls back to the default
         rp = [p_ for p_ in run_paths(ctx, pf, rule=RULE) if p_.end == "return" and not p_.conds]
-        ok = ok and all(p_.ret is not None and p_.ret.key() == dpar for p_ in run_paths(ctx, pf, rule=RULE) if p_.end == "return" and not any(
-            c_.startswith("In(") and t_ for c_, t_, _n in p_.conds))
+        if result_vars:
+            # single exit: the result variable holds the default before the search, only a hit changes it, and it is what is returned
+            R_ = sorted(result_vars)[0]
+            pre_ = [a_ for a_ in pf.body if isinstance(a_, ast.Assign) and len(a_.targets) == 1 and norm(a_.targets[0]) == R_]
+            post_ = [r_ for r_ in own_nodes(pf) if isinstance(r_, ast.Return)]
+            ok = ok and len(result_vars) == 1 and R_ not in miss_stores and len(pre_) == 1 and norm(pre_[0].value) == dpar and pre_[0].lineno < floops[0].lineno \
+                and len(post_) == 1 and post_[0].value is not None and norm(post_[0].value) == R_ and post_[0] in pf.body
+        else:
+            ok = ok and all(p_.ret is not None and p_.ret.key() == dpar for p_ in run_paths(ctx, pf, rule=RULE) if p_.end == "return" and not any(
+                c_.startswith("In(") and t_ for c_, t_, _n in p_.conds))
         starts = [a_ for a_ in pf.body if isinstance(a_, ast.Assign) and cur is not None and norm(a_.targets[0]) == cur]
         ok = ok and len(starts) == 1 and norm(starts[0].value) == cpar2
     ctx.ob(RULE, pf, "context values are looked up in the context and its enclosing context", ok, det, inst="_pull_from_context")
